@@ -400,12 +400,13 @@ impl PsFunc {
                 PsOp::Roll => {
                     let j = stack.pop().ok_or(PostScriptError::StackUnderflow)? as isize;
                     let n = stack.pop().ok_or(PostScriptError::StackUnderflow)? as usize;
+                    if n > stack.len() {
+                        return Err(PostScriptError::StackUnderflow);
+                    }
                     let start = stack.len() - n;
                     let slice = &mut stack[start..];
-                    if j > 0 {
-                        slice.rotate_right(j as usize);
-                    } else {
-                        slice.rotate_left(-j as usize);
+                    if n > 0 {
+                        slice.rotate_right(j.rem_euclid(n as isize) as usize);
                     }
                 }
                 PsOp::Index => {
